@@ -834,6 +834,27 @@ func sortU32(a []uint32) {
 	}
 }
 
+// HoldRead opens a read transaction and keeps it open (rollback mode: SHARED on the database file; WAL mode: a
+// read mark) until DropRead: a long-running SELECT.
+func (c *Conn) HoldRead(wal bool) error {
+	if wal {
+		return c.BeginRead()
+	}
+	if err := c.openDB(false); err != nil {
+		return err
+	}
+	return c.lockShared()
+}
+
+// DropRead ends the read transaction opened by HoldRead.
+func (c *Conn) DropRead(wal bool) {
+	if wal {
+		c.EndRead()
+		return
+	}
+	c.unlockAll()
+}
+
 // ReadImage reads the database as a rollback-mode reader would: SHARED lock,
 // header, every page through the page cache, unlock.
 func (c *Conn) ReadImage() (*oracle.Image, error) {
